@@ -199,7 +199,12 @@ where
                     if remaining < FLAGS_LEN {
                         break Ok(None);
                     }
-                    let flags = FrameFlags::from_bits_truncate(src.get_u8());
+                    let bits = src.get_u8();
+                    let flags = FrameFlags::from_bits(bits).ok_or_else(|| {
+                        FrameIoError::BadFrame(swimos_api::error::InvalidFrame::InvalidHeader {
+                            problem: Text::from(format!("Invalid command flags: {:#x}", bits)),
+                        })
+                    })?;
                     if flags.contains(FrameFlags::REGISTRATION) {
                         *state = DecoderState::ReadingRegistration(flags);
                     } else if flags.contains(FrameFlags::REGISTERED) {
